@@ -52,6 +52,111 @@ def _weak_randomness(tree, rebound):
     return hits
 
 
+# ---------------------------------------------------------------------------------------------------------------------
+# bit provenance of an entropy value: which bit of which draw reaches which bit of the bytes handed to the sentence
+# encoder.  Every bit is a set of contributions XOR-ed together: ('d', key, k) = bit k of draw `key`; ('o',) = something
+# that does not depend on a draw (a hash of caller-supplied bytes, a constant).  XOR with draw-free material is a
+# bijection of the draw, so it keeps every entropy bit free; a bit without a draw contribution is not random at all.
+class _NoProv(Exception):
+    pass
+
+
+def _draw_free(t):
+    return not T.contains(t, lambda x: T.is_op(x) and x[1] in ('RANDBITS', 'RANDBYTES', 'RANDVAL', 'PRNG', 'CSPRNG'))
+
+
+def _int_prov(t, draws):
+    """List (least significant bit first) of contribution sets of the non-negative integer t."""
+    if T.is_const(t) and isinstance(t[1], int) and not isinstance(t[1], bool) and t[1] >= 0:
+        return [frozenset([('o',)]) if (t[1] >> k) & 1 else frozenset() for k in range(t[1].bit_length())]
+    if T.is_op(t, 'RANDBITS') and T.is_const(t[3]) and isinstance(t[3][1], int):
+        draws.setdefault(t, len(draws))
+        return [frozenset([('d', draws[t], k)]) for k in range(t[3][1])]
+    if T.is_op(t, 'INT') and t[3] == T.const('big'):
+        return _bytes_prov(t[2], draws)
+    if T.is_op(t, 'BITXOR'):
+        a, b = _int_prov(t[2], draws), _int_prov(t[3], draws)
+        n = max(len(a), len(b))
+        a, b = a + [frozenset()] * (n - len(a)), b + [frozenset()] * (n - len(b))
+        return [x ^ y if not (('o',) in x and ('o',) in y) else (x | y) for x, y in zip(a, b)]
+    if T.is_op(t, 'BITAND') and any(T.is_const(x) and isinstance(x[1], int) for x in t[2:4]):
+        m, x = (t[2], t[3]) if T.is_const(t[2]) else (t[3], t[2])
+        a = _int_prov(x, draws)
+        return [c if (m[1] >> k) & 1 else frozenset() for k, c in enumerate(a)]
+    if T.is_op(t, 'RSHIFT') and T.is_const(t[3]) and isinstance(t[3][1], int) and t[3][1] >= 0:
+        return _int_prov(t[2], draws)[t[3][1]:]
+    if T.is_op(t, 'LSHIFT') and T.is_const(t[3]) and isinstance(t[3][1], int) and 0 <= t[3][1] <= 4096:
+        return [frozenset()] * t[3][1] + _int_prov(t[2], draws)
+    if T.is_op(t, 'MOD') and T.is_const(t[3]) and isinstance(t[3][1], int) and t[3][1] > 0 and t[3][1] & (t[3][1] - 1) == 0:
+        return _int_prov(t[2], draws)[:t[3][1].bit_length() - 1]
+    if _draw_free(t) and T.type_of(t) == 'int':
+        raise _NoProv('integer of unknown width: %s' % T.show(t, maxdepth=3))
+    raise _NoProv('integer expression %s' % T.show(t, maxdepth=3))
+
+
+def _bytes_prov(t, draws):
+    """Contribution sets of the bits of a byte string read as a big-endian integer (least significant bit first)."""
+    n = T.length_of(t)
+    if T.is_op(t, 'SER') and t[4] == T.const('big') and T.is_const(t[3]) and isinstance(t[3][1], int):
+        a = _int_prov(t[2], draws)
+        w = 8 * t[3][1]
+        return (a + [frozenset()] * w)[:w]
+    if T.is_op(t, 'SLICE') and T.is_const(t[3]) and (T.is_const(t[4])) and T.length_of(t[2]) is not None:
+        N = T.length_of(t[2])
+        lo = t[3][1] or 0
+        hi = N if t[4][1] is None else t[4][1]
+        if lo < 0:
+            lo += N
+        if hi < 0:
+            hi += N
+        lo, hi = max(0, min(N, lo)), max(0, min(N, hi))
+        a = _bytes_prov(t[2], draws)
+        return a[8 * (N - hi):8 * (N - lo)]
+    if T.is_op(t, 'CAT'):
+        out = []
+        for seg in reversed(t[2:]):
+            out += _bytes_prov(seg, draws)
+        return out
+    if T.is_op(t, 'RANDBYTES') and T.is_const(t[3]) and isinstance(t[3][1], int):
+        draws.setdefault(t, len(draws))
+        return [frozenset([('d', draws[t], k)]) for k in range(8 * t[3][1])]
+    if T.is_const(t) and isinstance(t[1], bytes):
+        return _int_prov(T.const(int.from_bytes(t[1], 'big')), draws) + [frozenset()] * 0 if False else \
+            [frozenset([('o',)]) if (int.from_bytes(t[1], 'big') >> k) & 1 else frozenset() for k in range(8 * len(t[1]))]
+    if n is not None and _draw_free(t):
+        return [frozenset([('o',)])] * (8 * n)
+    raise _NoProv('byte string %s' % T.show(t, maxdepth=3))
+
+
+def entropy_provenance(b, bits):
+    """(True, None) when every one of the `bits` bits of b carries its own bit of one CSPRNG draw (possibly XOR-ed with
+    draw-free material); (False, reason) when some bit does not; (None, reason) when the value is not understood."""
+    draws = {}
+    try:
+        pv = _bytes_prov(b, draws)
+    except _NoProv as e:
+        return None, 'the entropy value is built in a way the bit-provenance analysis does not follow (%s)' % e
+    if len(pv) != bits:
+        return False, 'the entropy handed to the sentence encoder is %d bits wide, %d were requested' % (len(pv), bits)
+    used = set()
+    for j, c in enumerate(pv):
+        ds = [x for x in c if x[0] == 'd']
+        if not ds:
+            return False, 'bit %d of the entropy does not depend on the CSPRNG draw (it is %s)' % (
+                j, 'determined by the other inputs alone' if c else 'always zero')
+        if len(ds) > 1:
+            return None, 'bit %d of the entropy combines several drawn bits' % j
+        if ds[0] in used:
+            return False, 'drawn bit %d is used for more than one bit of the entropy' % ds[0][2]
+        used.add(ds[0])
+    for d in draws:
+        if not T.is_op(d[2], 'CSPRNG'):
+            return False, 'the draw is not made on the OS CSPRNG (%s)' % T.show(d[2])
+    if len({x[1] for x in used}) != 1:
+        return None, 'the entropy bits come from several draws'
+    return True, None
+
+
 _MISSING = object()
 
 
@@ -228,6 +333,50 @@ def run(ctx):
                     ob.require(len({x for x in srcs if x[1] != 'PRNG'}) == 1 and not any(x[1] in ('PRNG', 'RANDVAL') for x in srcs),
                                '%s: the sentence depends on exactly one draw from the CSPRNG and on nothing else that varies' % nm,
                                fb.where, found=[T.show(x, maxdepth=3) for x in srcs])
+        # optional parameters switched away from their defaults (a feature added to the generating routes must keep every
+        # entropy bit a bit of the OS draw: XOR with caller-supplied material is fine, replacing or truncating the draw is not)
+        ANN = {'bytes': 'bytes', 'str': 'str', 'int': 'int', 'bool': 'bool'}
+        bound = {'bip39.mnemonic_from_entropy_bits': 1, 'BaseWallet.from_entropy_bits': 2, 'BaseWallet.new_wallet': 2}
+        quals = {'bip39.mnemonic_from_entropy_bits': 'bip39.mnemonic_from_entropy_bits',
+                 'BaseWallet.from_entropy_bits': 'base_wallet.BaseWallet.from_entropy_bits', 'BaseWallet.new_wallet': 'base_wallet.BaseWallet.new_wallet'}
+        for nm, call, is_wallet in entry:
+            fe = p.get_function(quals[nm])
+            extra = {}
+            for prm in fe.params[bound[nm]:]:
+                if prm not in fe.defaults:
+                    continue
+                an = next((a_.annotation for a_ in fe.node.args.args + fe.node.args.kwonlyargs if a_.arg == prm), None)
+                ty = ANN.get(ast.unparse(an)) if an is not None else None
+                if ty is None:
+                    continue
+                extra[prm] = S('opt_' + prm, type=ty)
+            if not set(extra) - {'password', 'testnet'}:
+                continue
+            for words, bits in ((12, 128), (24, 256)):
+                e3 = Evaluator(p, 'ecdsa', summaries=summ)
+                args = [T.const(bits)] if bound[nm] == 1 else [T.clsref(BW), T.const(bits if 'bits' in nm else words)]
+                v, f = e3.call_function(quals[nm], args, dict(extra))
+                for cs, leaf in normal_leaves(v):
+                    mn = attr_of(e3, leaf, 'mnemonic', Facts(known_at(f, cs))) if is_wallet else leaf
+                    hexes = []
+                    for mleaf in distinct_normal_leaves(mn):
+                        if not T.is_op(mleaf, 'MNEMONIC'):
+                            ob.undecided('%s with optional parameters %s: the sentence is not MNEMONIC(HEX(entropy)): %s'
+                                         % (nm, sorted(extra), T.show(mleaf, maxdepth=4)), fe.where)
+                            continue
+                        hexes.extend(distinct_normal_leaves(mleaf[2]))
+                    for hx in hexes:
+                        if not T.is_op(hx, 'HEX'):
+                            ob.undecided('%s with optional parameters %s: the sentence is not MNEMONIC(HEX(entropy)): %s'
+                                         % (nm, sorted(extra), T.show(hx, maxdepth=4)), fe.where)
+                            continue
+                        okp, why = entropy_provenance(hx[2], bits)
+                        if okp is None:
+                            ob.undecided('%s with optional parameters %s set: %s' % (nm, sorted(extra), why), fe.where)
+                        else:
+                            ob.require(okp, '%s with optional parameters %s set (%d bits): %s' % (nm, sorted(extra), bits, why), fe.where,
+                                       expected='every entropy bit is a bit of the OS draw (XOR with other material allowed)',
+                                       found=T.show(hx[2], maxdepth=7))
         e2 = Evaluator(p, 'ecdsa', summaries=summ)
         x = S('bits', type='int')
         facts = Facts()
